@@ -220,7 +220,7 @@ pub(crate) mod verif_enc {
         });
         if complete {
             assert!(n >= 1, "[C06,C01,C02] at least one (possibly empty) final chunk");
-            assert!(src == r.len && r.pos == r.len, "[C01,C02,C06] on success the whole plaintext has been sealed");
+            assert!(src == r.len && r.pos == r.len, "[C01,C02,C06,C08] on success the whole plaintext has been sealed (so the length is 32 per chunk + |P|)");
         }
         n
     }
